@@ -131,12 +131,12 @@ func Run(c *vh.Ctx) {
 			lines[i] = "lex " + cs.Mode + " " + cs.Hex
 		}
 		var err error
-		mans, err = m.AskBatch(lines)
-		if err != nil {
+		// the driver is stateless per line: answer with several driver processes
+		if mans, err = vh.AskParallel(c.ModelPath, lines, 8); err != nil {
 			c.Note("model failed: %v", err)
 			mans = nil
 		}
-		c.Res.ModelLines = m.Lines
+		c.Res.ModelLines = len(lines)
 	}
 	for i, cs := range cases {
 		v := verd[i]
